@@ -857,6 +857,114 @@ iteritems.hints = lambda c, e, d: (iter_hint(c, e, d) if not _is_single(c) else 
 for _c in [iteritems, iterkeys]:
     CONTRACTS[_c.qualname] = _c
 PUBLIC += [('OrderedMultiDict.iteritems', ['multi', 'single']), ('OrderedMultiDict.iterkeys', ['multi', 'single'])]
+iteritems.yields = 2
+_KEYGEN = {'out_n': z3.IntVal(0), 'out_0': z3.Const('x', ValArr), 'out_1': z3.Const('x', ValArr), 'outcell': z3.Const('x', IntArr),
+           'outidx': z3.Const('x', IntArr)}
+iteritems.extra_ghosts = {'$gen:iterkeys:' + g: t for g, t in _KEYGEN.items()}
+
+
+# ---- itervalues / keys / values: projections of the generators above (both values of multi) ----------------------------------------
+def setup_vals(eng, st, variant=None):
+    d = setup_iter_single(eng, st, variant) if variant == 'single' else setup_iter(eng, st, variant)
+    d['multi'] = SBool(variant != 'single')
+    eng.list_class = ValList
+    return d
+
+
+def GI(c, name):
+    return c.g('$gen:iteritems:' + name)
+
+
+def vals_facts(c, upto):
+    n, o0 = c.g('out_n'), c.g('out_0')
+    m = z3.Int('m')
+    return [('value m is the value of the m-th item of iteritems(multi)', z3.And(n == upto, z3.ForAll([m], z3.Implies(
+        z3.And(0 <= m, m < n), z3.Select(o0, m) == z3.Select(GI(c, 'out_1'), m)))))]
+
+
+def unchanged(c):
+    o, v = V(c, c.old), V(c)
+    return ('nothing is modified', z3.And(same(c, LL_KEYS + D_KEYS), v.live == o.live, v.t == o.t, v.pos == o.pos))
+
+
+def items_post_over(c, ghosts):
+    """the postcondition of iteritems(multi) restated over the ghost arrays of the call made by this function"""
+    from pyvc.contract import Ctx
+    st2 = c.st.copy()
+    for g, t in list(c.st.ghost.items()):
+        if g.startswith(ghosts):
+            st2.ghost[g[len(ghosts):]] = t
+    ck = Ctx(c.eng, st2, c.old, c.args)
+    return [('items: ' + l, f) for l, f in iteritems.ensures(ck) if l != 'nothing is modified']
+
+
+itervalues = Contract('OrderedMultiDict.itervalues', setup=setup_vals, requires=pub_req,
+                      ensures=lambda c: [unchanged(c)] + items_post_over(c, '$gen:iteritems:') + vals_facts(c, GI(c, 'out_n')),
+                      modifies=lambda c: [('OYieldedSet', 'dom'), ('OYieldedSet', 'size')],
+                      loops={0: Loop(lambda c: [unchanged(c)] + vals_facts(c, c.x['i']), heap=[], ghost=[])},
+                      generator=True, variants=['multi', 'single'])
+itervalues.yields = 1
+itervalues.extra_ghosts = {'$gen:iteritems:' + g: t for g, t in list(_KEYGEN.items()) + list(iteritems.extra_ghosts.items())}
+
+
+def list_of(c, gen):
+    r = c.result
+    if not isinstance(r, SRef):
+        return [('returns a list', z3.BoolVal(False))]
+    m = z3.Int('m')
+    n = c.g('$gen:%s:out_n' % gen)
+    return [('the list holds what %s(multi) yields, in order' % gen, z3.And(
+        r.t >= c.old.alloc, c.f(r, 'len') == n,
+        z3.ForAll([m], z3.Implies(z3.And(0 <= m, m < n), z3.Select(c.f(r, 'elems'), m) == z3.Select(c.g('$gen:%s:out_0' % gen), m)))))]
+
+
+def keys_post_over(c):
+    from pyvc.contract import Ctx
+    st2 = c.st.copy()
+    for g, t in list(c.st.ghost.items()):
+        if g.startswith('$gen:iterkeys:'):
+            st2.ghost[g[len('$gen:iterkeys:'):]] = t
+    ck = Ctx(c.eng, st2, c.old, c.args)
+    return [('keys: ' + l, f) for l, f in iterkeys.ensures(ck) if l != 'nothing is modified']
+
+
+LIST_MOD = lambda c: [('OYieldedSet', 'dom'), ('OYieldedSet', 'size'), ('OValList', 'elems'), ('OValList', 'len')]  # noqa: E731
+keys_c = Contract('OrderedMultiDict.keys', setup=setup_vals, requires=pub_req,
+                  ensures=lambda c: [unchanged_but_lists(c)] + keys_post_over(c) + list_of(c, 'iterkeys'), modifies=LIST_MOD,
+                  variants=['multi', 'single'])
+def restate(c, con, name):
+    """the postcondition of generator `con`, called by this function, over the ghost arrays of that call"""
+    from pyvc.contract import Ctx
+    prefix = '$gen:%s:' % name
+    st2 = c.st.copy()
+    for g, t in list(c.st.ghost.items()):
+        if g.startswith(prefix):
+            st2.ghost[g[len(prefix):]] = t
+    ck = Ctx(c.eng, st2, c.old, c.args)
+    return [('%s: %s' % (name, l), f) for l, f in con.ensures(ck) if not l.startswith('nothing')]
+
+
+values_c = Contract('OrderedMultiDict.values', setup=setup_vals, requires=pub_req,
+                    ensures=lambda c: [unchanged_but_lists(c)] + restate(c, itervalues, 'itervalues') + list_of(c, 'itervalues'),
+                    modifies=LIST_MOD, variants=['multi', 'single'])
+
+
+def unchanged_but_lists(c):
+    """a fresh result list is allocated: the value lists of the dict are untouched (they exist below the old allocation mark)"""
+    o, v = V(c, c.old), V(c)
+    k = z3.Const('k', Val)
+    i = z3.Int('i')
+    return ('nothing of the multidict is modified', z3.And(
+        same(c, LL_KEYS + [('OrderedMultiDict', 'dom'), ('OrderedMultiDict', 'val'), ('OrderedMultiDict', 'size')]),
+        v.live == o.live, v.t == o.t, v.pos == o.pos,
+        z3.ForAll([k], z3.Implies(z3.Select(o.ddom, k), z3.And(v.vlen(k) == o.vlen(k), z3.ForAll([i], z3.Implies(
+            z3.And(0 <= i, i < o.vlen(k)), v.value(k, i) == o.value(k, i))))))))
+
+
+for _c in [itervalues, keys_c, values_c]:
+    CONTRACTS[_c.qualname] = _c
+PUBLIC += [('OrderedMultiDict.itervalues', ['multi', 'single']), ('OrderedMultiDict.keys', ['multi', 'single']),
+           ('OrderedMultiDict.values', ['multi', 'single'])]
 
 
 # =====================================================================================================================
